@@ -110,15 +110,17 @@ def check(prop: str) -> int:
             mc = corecheck.run_mc(focus, depth, workdir)
             rep.add_tlc(f"MC_{focus} depth {depth}", mc["summary"], {"histories_emitted": len(mc["covers"])})
             covers = mc["covers"]
-            if tier == "quick" and len(covers) > 4000:
-                covers = rnd.sample(covers, 4000)
+            cap = 2500 if tier == "quick" else 6000
+            if len(covers) > cap:
+                covers = rnd.sample(covers, cap)
             for h in covers:
                 hists.append(corecheck.concretise(focus, mc, h))
         for _ in range(300 if tier == "quick" else 2000):
             hists.append(corecheck.random_history(rnd, rnd.choice(["C04", "C06", "C07", "C12"]), 40))
         jobs = []
         for k, (init, events) in enumerate(hists):
-            pairs = PAIRS if tier == "thorough" else [PAIRS[k % len(PAIRS)], PAIRS[(k * 7 + 3) % len(PAIRS)]]
+            npairs = 4 if tier == "thorough" else 2
+            pairs = [PAIRS[(k * (2 * j + 1) + 3 * j) % len(PAIRS)] for j in range(npairs)]
             for older, newer in pairs:
                 evs = [e for e in events if in_scope(e, older, newer) and not e.get("fault")]
                 if evs:
